@@ -158,16 +158,17 @@ func check(prop, tier string) int {
 			violate(en.Func, "hint-mismatch", "function "+en.Func+" named by the property map has no contract or no longer exists", false)
 			continue
 		}
-		fr := prog.VerifyFuncRebinding(fi, func(obs []*vc.Obligation) bool {
+		fr := prog.VerifyFuncRebinding(fi, func(obs []*vc.Obligation) int {
+			nfail := 0
 			for _, r := range vc.SolveAll(obs, smtDir, timeout, 14) {
 				if r.Ob.MustFail || r.Ob.Kind == "aux" {
 					continue
 				}
 				if r.Status != "unsat" {
-					return false
+					nfail++
 				}
 			}
-			return true
+			return nfail
 		})
 		if fr.Opaque {
 			assumed["assumed contract (body not verified): "+fr.Func+" — "+fr.Trusted] = true
